@@ -249,7 +249,7 @@ def run(ctx):
     layout_obligation(ctx)
     # the member lists compared by reb_particle_diff / the var_config branch are regenerated from the current source
     ctx.regen("translate_descriptors.py")
-    proved = ctx.prove("C06", extra_targets=["C06/Run.vo"])
+    proved = ctx.prove("C06", extra_targets=["C06/Run.vo", "C06/RunF.vo"])
     rng = ctx.rng
 
     # ---- correspondence histories (bytes exchanged with Coq): small N
@@ -299,10 +299,38 @@ def run(ctx):
         ctx.violation("many-snapshots", {"job": {"kind": "many", "n": 1100}, "result": m0, "how": "tools/c06_driver.py job_many"}, True,
                       "property=C06 an archive with 1100 snapshots (N=1, leapfrog) reads back nblobs=%s, last t=%s (expected 1100, %s)"
                       % (m0.get("nblobs"), m0.get("last_t"), m0.get("expected_last_t")))
+    # ---- interval cadence, binary64: the Num-polymorphic heartbeat term at FNum vs the library, bit for bit
+    fjobs = []
+    for _ in range(ctx.scale(24, 200)):
+        dt = rng.choice([0.05, 0.02, -0.04, 0.1313])
+        t0 = rng.choice([0.0, 1.0, -2.0, 1e6, 1e9, -1e12, 3e12])   # dt is never absorbed by t; tiny intervals are
+        iv = rng.choice([abs(dt) * rng.uniform(0.2, 5.0), abs(dt), 3 * abs(dt), abs(dt) * 0.37, 1e-3 * abs(dt), abs(dt) * (rng.randint(1, 4) + 0.37)])
+        fjobs.append({"kind": "autoF", "spec": {"n": 2, "integrator": rng.choice(["whfast", "leapfrog", "ias15"]), "dt": dt, "t0": t0},
+                      "interval": iv, "presteps": rng.randint(0, 2), "chunks": [rng.randint(1, 9) for _ in range(rng.randint(1, 4))]})
+    fres = run_jobs(libdir, [fjobs[i:i + 6] for i in range(0, len(fjobs), 6)], timeout=120)
+    fres = [x for b in fres if isinstance(b, list) for x in b]
+    fh = lambda s: vlib.fhex(float.fromhex(s))
+    terms = []; fmeta = []
+    for job, r in zip(fjobs, fres):
+        if "xs" not in r or not r.get("same_t"):
+            continue
+        terms.append("(run_thrF %s %s %s [%s], [%s])" % (vlib.fhex(r["sign"]), vlib.fhex(r["interval"]), fh(r["next0"]),
+                                                         "; ".join(fh(x) for x in r["xs"]), "; ".join(fh(x) for x in r["lib_t"] + [r["final_next"]])))
+        fmeta.append((job, r))
+        ctx.case(key=("autoF", job["spec"]["dt"], job["spec"]["t0"], round(job["interval"], 9), tuple(job["chunks"])),
+                 sample={"interval_cadence_binary64": job, "snapshots": len(r["lib_t"])} if len(ctx.samples) < 6 else None)
+    fbody = ("From Coq Require Import List PrimFloat.\nFrom RV Require Import Common.FloatNum C06.RunF.\nImport ListNotations.\nOpen Scope float_scope.\n"
+             "Eval vm_compute in (bad_cases [%s]).\n" % ";\n".join(terms))
+    fok, fout = vlib.coq_eval("c06_autoF", fbody)
+    fbad = vlib.parse_coq_list_nat(fout) if fok else None
+    ctx.obligation("correspondence:C06 interval cadence at binary64: model run_thr(FNum) == library snapshot times and accumulated simulationarchive_next on %d runs" % len(terms),
+                   len(terms) >= 10 and fbad == [], "mismatching runs %s %s" % (fbad, [fmeta[i][0] for i in (fbad or [])[:2]] if fbad else fout[-400:]))
+    if fbad == []:
+        ctx.traces = getattr(ctx, "traces", 0) + len(terms)
     cres = results[:len(cjobs)]
     ctx.log("histories done; evaluating the model in Coq on %d histories" % len(cjobs))
     n, bad = correspondence(ctx, libdir, cres, cjobs, "corr")
-    ctx.traces = n
+    ctx.traces = getattr(ctx, 'traces', 0) + n
     ctx.obligation("correspondence:C06 model == library on %d comparisons (diff bytes, file bytes after append, index)" % n,
                    n > 0 and not bad, "; ".join("history %d: %s" % (j, m) for j, m in bad[:6]))
 
@@ -349,8 +377,8 @@ def run(ctx):
         "the state is the map type -> payload; decoding payloads into struct members is C05's subject",
         "payload comparison is a parameter of the theorem: with memcmp the overlay is exact; the C code compares particles / var_config member-wise "
         "bitwise and ignores only the pointer members (addresses), which the oracle masks as well",
-        "index_of_chain is stated over the chain layout (blob0, trailer, delta, END, trailer, ...); that reb_simulation_save_to_file produces this "
-        "layout byte for byte is tied by the correspondence (model save_append == file written by the library), not proved",
+        "index_of_chain is stated over the chain layout (blob0, trailer, delta, END, trailer, ...); the MODEL writer is proved to produce it "
+        "(C06_writer_produces_chain); that reb_simulation_save_to_file equals the model writer is tied by the correspondence (byte-equal files)",
         "offsets / sizes < 2^31 (int32 trailer members are modelled as unsigned)",
         "reuse_index fast path, 16-bit legacy offsets, walltime cadence: not covered",
     ]
